@@ -172,6 +172,8 @@ class FixedArray(Array, Generic[ValuesType]):
 
     # Equality -------------------------------------------------------------------------------------
     def __eq__(self, other: Any) -> bool:
+        if not isinstance(other, FixedArray):
+            return NotImplemented
         return Array.__eq__(self, other) and self.dimension == other.dimension
 
     def __reduce__(self) -> Any:
